@@ -190,6 +190,12 @@ def extract(fd, n, method, pad_mode):
     if any(o is None for o in it.OUT):
         raise Undecided('output row %d never written'
                         % it.OUT.index(None))
+    for r, o in enumerate(it.OUT):
+        bad = [k for k in o if isinstance(k, tuple) and k[0] == 'UNDEF']
+        if bad:
+            return ('GARBAGE', 'output row %d depends on the uninitialised '
+                    'output entry %d (np.empty memory read before it is '
+                    'written)' % (r, bad[0][1]))
     M = [[o.get(('f', j), Fr(0)) for j in range(n)] for o in it.OUT]
     v = [o.get('c', Fr(0)) for o in it.OUT]
     k = [o.get('1', Fr(0)) for o in it.OUT]
@@ -384,6 +390,9 @@ def check(ctx):
                 try:
                     res[key] = extract(fd, n, m, p)
                     rep.count('stencil_configurations')
+                    if res[key][0] == 'GARBAGE':
+                        rep.violation('R1', cons, res[key][1], REL,
+                                      fd.lineno)
                 except Undecided as e:
                     res[key] = ('UNDECIDED', str(e))
                     rep.undecided('R1', cons, str(e), REL, fd.lineno)
